@@ -126,4 +126,68 @@ theorem batch_no_panic (H : Hasher D) [DecidableEq D] (root : D) (p : BatchProof
     · exact Or.inl rfl
   · rw [he]; exact Or.inr ⟨e, rfl⟩
 
+/-! ## Concrete instances (every theorem with hypotheses has a non-trivial instance)
+
+The example hasher is the free binary tree over the leaves: `merge` is a constructor, hence
+collision free — the idealisation under which the binding theorems hold. -/
+
+inductive T where
+  | leaf (n : Nat)
+  | node (l r : T)
+  deriving DecidableEq, Repr
+
+def exH : Hasher T := { merge := T.node, dflt := T.leaf 0 }
+
+theorem exH_inj : MergeInj exH := by
+  intro a b c d h; injection h with h1 h2; exact ⟨h1, h2⟩
+
+/-- eight leaves `leaf 0 .. leaf 7` -/
+def exLeaves : List T := (List.range 8).map T.leaf
+def exTree : Tree T := treeOf exH exLeaves
+def exRoot : T := T.node (T.node (T.node (T.leaf 0) (T.leaf 1)) (T.node (T.leaf 2) (T.leaf 3)))
+  (T.node (T.node (T.leaf 4) (T.leaf 5)) (T.node (T.leaf 6) (T.leaf 7)))
+/-- the path of position 5 -/
+def exPath5 : List T := [T.leaf 5, T.leaf 4, T.node (T.leaf 6) (T.leaf 7),
+  T.node (T.node (T.leaf 0) (T.leaf 1)) (T.node (T.leaf 2) (T.leaf 3))]
+/-- the batch opening of positions 6, 1, 3 (in this order) -/
+def exBatch : BatchProof T :=
+  { leaves := [T.leaf 6, T.leaf 1, T.leaf 3],
+    nodes := [[T.leaf 0], [T.leaf 2], [T.leaf 7, T.node (T.leaf 4) (T.leaf 5)]], depth := 3 }
+
+example : Tree.new exH exLeaves = .ok exTree ∧ exTree.root = .ok exRoot := by decide
+example : prove exTree 5 = .ok exPath5 ∧ verify exH exRoot 5 exPath5 = .ok () := by decide
+example : proveBatch exH exTree [6, 1, 3] = .ok exBatch ∧ verifyBatch exH exRoot [6, 1, 3] exBatch = .ok () := by
+  decide
+
+-- instances of the hypotheses of `single_complete`, `single_binding`, `batch_complete`, `batch_binding`
+example := single_complete exH exLeaves 3 (by decide) (by decide) (by decide) 5 (by decide)
+example := single_binding exH exH_inj exLeaves 3 (by decide) (by decide) (by decide) exRoot (by decide) 5 (by decide)
+  exPath5 (by decide) (by decide)
+example := batch_complete exH exLeaves 3 (by decide) (by decide) (by decide) [6, 1, 3] (by decide) (by decide)
+  (by decide) (by decide)
+example := batch_binding exH exH_inj exLeaves 3 (by decide) (by decide) exRoot (by decide) exBatch rfl [6, 1, 3]
+  (by decide)
+
+-- mutations of the two openings are errors, not acceptance and not panics
+example : verify exH exRoot 4 exPath5 = .err .invalid ∧ verify exH exRoot 13 exPath5 = .err .oob ∧
+    verify exH exRoot 5 (exPath5.take 1) = .err .invalid ∧
+    verify exH exRoot 5 (exPath5 ++ List.replicate 61 (T.leaf 9)) = .err .invalid := by decide
+example : verifyBatch exH exRoot [6, 1, 3] { exBatch with nodes := [[T.leaf 0], [T.leaf 2, T.leaf 9],
+      [T.leaf 7, T.node (T.leaf 4) (T.leaf 5)]] } = .err .invalid ∧
+    verifyBatch exH exRoot [6, 1, 3] { exBatch with leaves := exBatch.leaves ++ [T.leaf 9] } = .err .invalid ∧
+    verifyBatch exH exRoot [6, 1, 3] { exBatch with depth := 64 } = .err .invalid ∧
+    verifyBatch exH exRoot [6, 1, 1] exBatch = .err .dup ∧
+    verifyBatch exH exRoot [6, 1, 8] exBatch = .err .oob ∧
+    verifyBatch exH exRoot [1, 6, 3] exBatch = .err .invalid := by decide
+
+/-- Why `single_binding` fixes the length of the path (and `batch_binding` the depth of the
+    opening): `verify` takes the depth of the tree from the path, and the two-node path
+    `[node 0..3, node 4..7]` verifies against the root for position 0 although its first node is not
+    the committed leaf 0 — it opens an internal node as a leaf.  The depth is an input the
+    verifier of the protocol supplies, not a part of the untrusted opening. -/
+theorem single_binding_needs_length :
+    ∃ path : List T, verify exH exRoot 0 path = .ok () ∧ path[0]? ≠ exLeaves[0]? :=
+  ⟨[T.node (T.node (T.leaf 0) (T.leaf 1)) (T.node (T.leaf 2) (T.leaf 3)),
+    T.node (T.node (T.leaf 4) (T.leaf 5)) (T.node (T.leaf 6) (T.leaf 7))], by decide, by decide⟩
+
 end WinterProofs.C10
